@@ -35,6 +35,16 @@ type script struct {
 	err      error
 	postFail int
 
+	// scratch: the source uses the part of p it does not fill as scratch space
+	// (io.Reader allows that: "even if Read returns n < len(p), it may use all
+	// of p as scratch space during the call") - whatever was in p[n:] is
+	// overwritten with garbage on every short or failing answer.
+	// stutter: every main-stream request is first answered with a zero-length
+	// read (0, nil), which io.ReadFull tolerates, then served.
+	scratch   bool
+	stutter   bool
+	stuttered bool
+
 	// cont is the number of bytes still owed to a request that was answered
 	// short without an error: io.ReadFull comes back at once asking for exactly
 	// that many, and such a continuation belongs to the main stream even when
@@ -66,11 +76,26 @@ var (
 
 const postFailLimit = 200
 
-func newScript(stream []byte, chunk, failAt, mode int) *script {
+// Source behaviour flags (opCase.Flags).
+const (
+	flagScratch = 1 // the source scribbles over the unfilled part of the caller's buffer
+	flagStutter = 2 // zero-length reads (0, nil) before every answer
+	flagArgs    = 4 // slice arguments are private copies with sentinel spare capacity, checked and overwritten after the call
+)
+
+func newScript(stream []byte, chunk, failAt, mode, flags int) *script {
 	if mode == faultNone {
 		failAt = -1
 	}
-	return &script{stream: stream, chunk: chunk, failAt: failAt, mode: mode}
+	return &script{stream: stream, chunk: chunk, failAt: failAt, mode: mode, scratch: flags&flagScratch != 0, stutter: flags&flagStutter != 0}
+}
+
+func (s *script) scribble(p []byte) {
+	if s.scratch {
+		for i := range p {
+			p[i] = 0xa5 ^ byte(i*7)
+		}
+	}
 }
 
 func (s *script) fail(err error) error {
@@ -93,8 +118,15 @@ func (s *script) Read(p []byte) (int, error) {
 		if s.postFail > postFailLimit {
 			panic(errKeptReading)
 		}
+		s.scribble(p)
 		return 0, s.err
 	}
+	if s.stutter && !s.stuttered {
+		s.stuttered = true
+		s.scribble(p)
+		return 0, nil
+	}
+	s.stuttered = false
 	s.reqs = append(s.reqs, len(p))
 	want := len(p)
 	if s.chunk > 0 && want > s.chunk {
@@ -113,6 +145,7 @@ func (s *script) Read(p []byte) (int, error) {
 		copy(p, s.stream[s.off:s.off+want])
 		s.off += want
 		s.cont = len(p) - want
+		s.scribble(p[want:])
 		return want, nil
 	}
 	// the request needs a byte that does not exist
@@ -120,6 +153,7 @@ func (s *script) Read(p []byte) (int, error) {
 		copy(p, s.stream[s.off:s.off+avail])
 		s.off += avail
 		s.cont = len(p) - avail
+		s.scribble(p[avail:])
 		return avail
 	}
 	switch mode {
@@ -127,22 +161,27 @@ func (s *script) Read(p []byte) (int, error) {
 		if avail > 0 {
 			return give(), nil
 		}
+		s.scribble(p)
 		return 0, s.fail(io.EOF)
 	case faultEOFWithData:
 		return give(), s.fail(io.EOF)
 	case faultUnexpected:
+		s.scribble(p)
 		return 0, s.fail(io.ErrUnexpectedEOF)
 	case faultCustom:
+		s.scribble(p)
 		return 0, s.fail(errScripted)
 	case faultShortThenErr:
 		if avail > 0 {
 			return give(), nil
 		}
+		s.scribble(p)
 		return 0, s.fail(errScripted)
 	case faultDataWithErr:
 		return give(), s.fail(errScripted)
 	case faultTransient:
 		s.failAt = -1
+		s.scribble(p)
 		return 0, errScripted
 	}
 	panic("c12: bad fault mode")
